@@ -9,11 +9,13 @@ pub mod report;
 pub mod tlcout;
 
 pub fn hex(b: &[u8]) -> String {
-    let mut s = String::with_capacity(b.len() * 2);
+    const H: &[u8; 16] = b"0123456789abcdef";
+    let mut s = Vec::with_capacity(b.len() * 2);
     for x in b {
-        s.push_str(&format!("{:02x}", x));
+        s.push(H[(x >> 4) as usize]);
+        s.push(H[(x & 15) as usize]);
     }
-    s
+    String::from_utf8(s).expect("hex digits")
 }
 
 pub fn unhex(s: &str) -> Vec<u8> {
